@@ -85,6 +85,29 @@ class Engine:
         self.discharged_sort = 0
         self.discharged_collect = 0
         self.discharged_reduce = 0
+        self.lossy_sorts = []
+
+    KEY_OK = ("as_str", "deref", "clone", "as_ref", "borrow", "cmp", "partial_cmp", "number", "generation", "as_bytes", "then",
+              "then_with", "reverse", "as_slice", "to_owned", "to_string", "unwrap_or", "total_cmp", "eq", "ne", "lt", "le", "gt", "ge",
+              "as_deref", "0", "1", "copied", "cloned", "as_ref", "unwrap_or_default", "to_vec", "into")
+
+    def _lossy_sort_key(self, fn, op):
+        """the comparator/key closure of a sort applies a non-injective transformation to the elements"""
+        fl = FL.flow(fn)
+        seen, drecs = fl.back_slice(FL.op_locals(op))
+        for d in drecs:
+            if d[0] != "stmt":
+                continue
+            rv = fn.blocks[d[1]][0][d[2]][2]
+            if rv[0] == "agg" and rv[1][0] == "clo":
+                cf = self.facts.fns.get(rv[1][1])
+                if cf is None:
+                    continue
+                for b, c, a, dd, t, u in cf.calls():
+                    nm = (c.get("p") or "").rsplit("::", 1)[-1]
+                    if nm not in self.KEY_OK:
+                        return True
+        return False
 
     def _compute_emits(self):
         facts = self.facts
@@ -116,6 +139,10 @@ class Engine:
         for b, c, args, dest, tgt, uw in fn.calls():
             name = (c.get("p") or "").rsplit("::", 1)[-1]
             if name in SORTS and args:
+                if name not in ("sort", "sort_unstable") and len(args) > 1 and self._lossy_sort_key(fn, args[1]):
+                    # a key that is not injective (to_lowercase, len, ...) leaves ties in hash order
+                    self.lossy_sorts.append((fn.id, fn.where(b), name))
+                    continue
                 r = L.recv_of(fn, args)
                 if r is not None:
                     sorted_locals.add((r[0], tuple(r[1][:1])))
@@ -367,6 +394,9 @@ def check_scope(ctx, rule, roots, scope_prefixes=None, prims=None, what="output"
         for l, w in r["ord"].items():
             if w.startswith("hash iteration"):
                 nsrc += 1
+    for fid_, where_, name_ in sorted(set(eng.lossy_sorts)):
+        if fid_ in scope or (facts.fns[fid_].parent or "") in scope:
+            ctx.note("sort with a non-injective key (%s) at %s does not fix the order of tied elements" % (name_, where_))
     ctx.counts[rule + ":functions_in_scope"] = len(scope)
     ctx.counts[rule + ":hash_iteration_sources"] = eng.sources_seen
     ctx.counts[rule + ":discharged_by_sort"] = eng.discharged_sort
